@@ -146,7 +146,7 @@ class RunResult:
 
 def run_analysis(case, workers, timeout, chooser, threshold, max_steps=200000, deadline_slack=None,
                  parent_cost=None, speeds=None, start_delays=None, want_report=True, extra_inv=None, rtt=None,
-                 via_cli=False):
+                 via_cli=False, item_cost=None):
     """One simulated analysis.  Returns RunResult with everything the oracles need."""
     import osaca.semantics.kernel_dg as kd
     case.prepare()
@@ -154,8 +154,11 @@ def run_analysis(case, workers, timeout, chooser, threshold, max_steps=200000, d
     sim.captured = {}
     if rtt is None:
         rtt = procs.RTTS[chooser.choose(len(procs.RTTS), "rtt")]
+    if item_cost is None:
+        item_cost = procs.ITEM_COSTS[chooser.choose(len(procs.ITEM_COSTS), "itemcost")]
     w = procs.World(sim, ncpu=workers, shared=[case.parser, case.mm, case.sem],
-                    speeds=speeds or procs.SPEEDS, start_delays=start_delays or procs.START_DELAYS, rtt=rtt)
+                    speeds=speeds or procs.SPEEDS, start_delays=start_delays or procs.START_DELAYS, rtt=rtt,
+                    item_cost=item_cost)
     if parent_cost is None:
         parent_cost = (speeds or procs.SPEEDS)[chooser.choose(len(speeds or procs.SPEEDS), "pspeed")]
     res = RunResult()
